@@ -403,7 +403,11 @@ static void run_subprocess(char **argv) {
     fprintf(stderr, "\n");
   }
 
-  if (fork() == 0) {
+  int pid = fork();
+  if (pid < 0)
+    error("fork failed: %s", strerror(errno));
+
+  if (pid == 0) {
     // Child process. Run a new command.
     execvp(argv[0], argv);
     fprintf(stderr, "exec failed: %s: %s\n", argv[0], strerror(errno));
@@ -481,6 +485,8 @@ static void print_tokens(Token *tok) {
     line++;
   }
   fprintf(out, "\n");
+  if (fflush(out) || ferror(out))
+    error("cannot write output file: %s", strerror(errno));
 }
 
 static bool in_std_include_path(char *path) {
@@ -605,7 +611,8 @@ static void cc1(void) {
   // Write the asembly text to a file.
   FILE *out = open_file(output_file);
   fwrite(buf, buflen, 1, out);
-  fclose(out);
+  if (ferror(out) || fclose(out))
+    error("cannot write output file: %s: %s", output_file, strerror(errno));
 }
 
 static void assemble(char *input, char *output) {
@@ -790,8 +797,18 @@ int main(int argc, char **argv) {
 
     // Handle .s
     if (type == FILE_ASM) {
-      if (!opt_S)
+      if (opt_S)
+        continue;
+
+      if (opt_c) {
         assemble(input, output);
+        continue;
+      }
+
+      // Assemble and link
+      char *tmp = create_tmpfile();
+      assemble(input, tmp);
+      strarray_push(&ld_args, tmp);
       continue;
     }
 
